@@ -28,6 +28,22 @@ def _to_literal(value):
         return value
 
 
+def _optional_flag_padding(member):
+    """ Bytes between the flag of an optional member and its value (member.byte_size covers flag, padding and value). """
+    node = member
+    while getattr(node, 'definition', None):
+        node = node.definition
+    if isinstance(node, model.Enum):
+        value_size = model.ENUM_SIZE
+    elif hasattr(node, 'type_name'):
+        value_size = model.BUILTIN_SIZES.get(node.type_name)
+    else:
+        value_size = node.byte_size
+    if member.byte_size is None or value_size is None:
+        return 0
+    return member.byte_size - value_size - model.DISC_SIZE
+
+
 class _Padder(object):
     PADDINGS = (
         (1, 'uint8_t'),
@@ -121,7 +137,12 @@ class _HppDefinitionsTranslator(TranslatorBase):
             else:
                 field = '{0} {1};\n'.format(typename, member.name)
             if member.optional:
-                field = 'prophy::bool_t has_{0};\n'.format(member.name) + field
+                flag = 'prophy::bool_t has_{0};\n'.format(member.name)
+                flag_padding = _optional_flag_padding(member)
+                if flag_padding:
+                    """ value aligned stricter than the flag: the wire format pads between them """
+                    flag += padder.generate_padding(flag_padding)
+                field = flag + field
             if member.padding is not None and member.padding > 0:
                 field += padder.generate_padding(member.padding)
             return field
